@@ -10,7 +10,7 @@ use crate::{
     props::{diff_fields, sig_fields},
     rng::{hash_str, Rng},
     runner::{guard, Ctx},
-    sets::{self, SetDomain, SetSpec},
+    sets::{self, SetSpec},
 };
 
 /// Witness predicate for the signature (evaluated on the failing input).
@@ -40,8 +40,8 @@ pub fn predicate(map: &Beatmap, mode: GameMode, spec: &SetSpec) -> String {
     }
 }
 
-pub fn settings(rng: &mut Rng, mode: GameMode) -> SetSpec {
-    let mut spec = sets::gen_setspec(rng, mode, SetDomain::Game).without_passed();
+pub fn settings(rng: &mut Rng, mode: GameMode, map: &Beatmap) -> SetSpec {
+    let mut spec = sets::gen_setspec_wide(rng, mode, map).without_passed();
     if rng.chance(0.4) {
         spec.clock = Some(*rng.pick(&[0.75, 1.3, 1.5, 1.3, 0.9, 1.1]));
     }
@@ -76,12 +76,12 @@ pub fn mix(ctx: &Ctx, rng: &mut Rng) -> Mix {
 pub fn case(ctx: &mut Ctx, idx: u64) {
     let mut rng = Rng::for_case(ctx.seed, "C02", idx);
     let mx = mix(ctx, &mut rng);
-    let Some((mc, map)) = gen::gen_domain_map(&mut rng, &mx, Domain::Realistic) else {
+    let Some((mc, map)) = gen::gen_domain_map_ext(&mut rng, &mx, Domain::Realistic, 3, 15) else {
         ctx.count("skipped_no_domain_map");
         return;
     };
     let mode = gen::pick_mode(&mut rng, &map);
-    let spec = settings(&mut rng, mode);
+    let spec = settings(&mut rng, mode, &map);
     check(ctx, &mut rng, &mc.text, &mc.tag, &map, mode, &spec);
 }
 
